@@ -146,6 +146,14 @@ def _dtype_kind(dt):
     return 'real', 0.0
 
 
+@model('numpy.zeros_like')
+def np_zeros_like(interp, st, fr, args, kw):
+    x = args[0]
+    if isinstance(x, Quantity):
+        return Quantity(npm.zeros(tuple(npm.shape_of(st, x.value)), 0.0, 'real'), x.unit)
+    return npm.zeros(tuple(npm.shape_of(st, x)), 0.0, 'real')
+
+
 @model('numpy.ones')
 def np_ones(interp, st, fr, args, kw):
     shape = args[0]
@@ -241,6 +249,8 @@ def np_searchsorted(interp, st, fr, args, kw):
     n = shape[0]
     lt = '<' if side == 'left' else '<='
     ge = '>=' if side == 'left' else '>'
+    # the contract below is only meaningful for a sorted array: that is an obligation
+    st.oblige('safe.searchsorted_sorted', Forall([n, n], lambda k, l: implies(compare('<=', k, l), compare('<=', fn((k,)), fn((l,)))), name='sorted'), kind='safe')
 
     def one(val):
         i = fresh_int('ss')
